@@ -72,8 +72,8 @@ Profile profile_for(const std::string &c) {
         set(p.w_script, {{BECOME, 44}, {MSG, 26}, {LIFE, 12}, {CTX, 8}, {STASH, 8}});
         p.mod_flag_bits = 0; p.src_kinds = 0; p.sub_flag_bits = 0;
     } else if (c == "C18") {
-        set(p.w_driver, {{TB, 22}, {MSG, 30}, {LIFE, 14}, {SUBS, 10}, {SRC, 12}, {BECOME, 6}});
-        set(p.w_script, {{TB, 10}, {MSG, 40}, {LIFE, 12}, {SUBS, 10}, {SRC, 8}, {CTX, 8}, {BECOME, 6}});
+        set(p.w_driver, {{TB, 22}, {MSG, 30}, {LIFE, 14}, {SUBS, 10}, {SRC, 12}, {BECOME, 6}, {BATCH, 5}});   // (the batch time-out is another internal timer of the module)
+        set(p.w_script, {{TB, 10}, {MSG, 40}, {LIFE, 12}, {SUBS, 10}, {SRC, 8}, {CTX, 8}, {BECOME, 6}, {BATCH, 2}});
         p.mod_flag_bits = 0; p.src_kinds = 2; p.src_flag_bits = 0; p.sub_flag_bits = 0; p.eintr = false;
     } else if (c == "C19") {
         set(p.w_driver, {{SUBS, 30}, {LIFE, 36}, {REG, 8}, {CTX, 10}, {MSG, 6}});
